@@ -74,3 +74,30 @@ package fox
 //@   loop 1: invariant forall k int :: {rte.mws[k]} 0 <= k && k < len(rte.mws) ==> rte.mws[k].m != nil
 //@   loop 1: invariant unshared: fresh(rte.mws) || cap(rte.mws) == len(rte.mws)
 //@   loop 1: decreases len(opts) - rangeindex
+
+//@ -- the two in-package implementations of RouteOption delegate to the wrapped function value
+//@ func (optionFunc).applyRoute props C19
+//@   implements optionFunc.call
+//@   requires o != nil
+//@ func (routeOptionFunc).applyRoute props C19
+//@   implements routeOptionFunc.call
+//@   requires o != nil
+
+//@ -- WithMiddleware: appends (m[i], scope, global flag) in order, rejects nil middleware
+//@ func WithMiddleware$1 props C13,C19
+//@   implements optionFunc.call
+//@   requires s.router == nil
+//@   requires s.route != nil
+//@   requires forall k int :: {s.route.mws[k]} 0 <= k && k < len(s.route.mws) ==> s.route.mws[k].m != nil
+//@   modifies s.route.mws, elems(s.route.mws)
+//@   ensures rejected: result != nil ==> errIs(result, ErrInvalidConfig) && exists k int :: 0 <= k && k < len(m) && m[k] == nil
+//@   ensures appended: result == nil ==> len(s.route.mws) == old(len(s.route.mws)) + len(m)
+//@   ensures kept: forall k int :: {s.route.mws[k]} 0 <= k && k < old(len(s.route.mws)) ==> s.route.mws[k] == old(s.route.mws[k])
+//@   ensures new: result == nil ==> forall j int :: {s.route.mws[j]} old(len(s.route.mws)) <= j && j < len(s.route.mws) ==> s.route.mws[j].m == m[j - old(len(s.route.mws))] && s.route.mws[j].scope == RouteHandler && !s.route.mws[j].g
+//@   loop 2: invariant -1 <= rangeindex#2 && rangeindex#2 < len(m) && len(s.route.mws) == old(len(s.route.mws)) + rangeindex#2 + 1
+//@   loop 2: invariant forall k int :: {s.route.mws[k]} 0 <= k && k < old(len(s.route.mws)) ==> s.route.mws[k] == old(s.route.mws[k])
+//@   loop 2: invariant forall j int :: {s.route.mws[j]} old(len(s.route.mws)) <= j && j < len(s.route.mws) ==> s.route.mws[j].m != nil && s.route.mws[j].m == m[j - old(len(s.route.mws))] && s.route.mws[j].scope == RouteHandler && !s.route.mws[j].g
+//@   loop 2: invariant (ref(s.route.mws) == old(ref(s.route.mws)) && off(s.route.mws) == old(off(s.route.mws)) && cap(s.route.mws) == old(cap(s.route.mws))) || fresh(s.route.mws)
+//@   loop 2: invariant forall j int :: {old(s.route.mws)[j]} !(len(old(s.route.mws)) <= j && j < cap(old(s.route.mws))) ==> old(s.route.mws)[j] == old(s.route.mws[j])
+//@   loop 2: invariant cap(old(s.route.mws)) == len(old(s.route.mws)) ==> arrayOf(old(s.route.mws)) == old(arrayOf(s.route.mws))
+//@   loop 2: decreases len(m) - rangeindex#2
